@@ -65,6 +65,16 @@ CHECKS = {
              "of all histories of <=4 (quick) / <=5 (thorough) set/add/remove/clear steps; every normal-form cardinality "
              "with bounds <=3 is saved and reloaded in XML, JSON, YAML through string, file and odml.save/load.",
         design="DESIGN.md C09"),
+    "C14": dict(
+        engine="input",
+        category="model_checking",
+        technique="exhaustive enumeration of all small trees and name assignments against an independent resolver / BFS",
+        text="All ordered forests with <=5 (quick) / <=6 (thorough) Sections x all sibling-unique assignments of the names "
+             "{a, ab, a.b, b}: every absolute path from the Document and from every Section, every ordered pair for relative "
+             "paths, every start x max_depth x yield_self x filter for itersections/iterproperties/itervalues (exact "
+             "breadth-first sequence by identity), find/find_related over keys x types x all 32 flag combinations "
+             "(trees <=4/5), plus four large deterministic trees; compared with ref/paths.py.",
+        design="DESIGN.md C14"),
 }
 
 NOT_YET = {}
